@@ -23,4 +23,4 @@ INIT MCInit
 NEXT MCNext
 CHECK_DEADLOCK FALSE
 VIEW View
-INVARIANTS C04_Converged
+INVARIANTS C04_Converged Cover
